@@ -300,6 +300,10 @@ class H2Protocol:
                         event.stream_id, h2.errors.ErrorCodes.INTERNAL_ERROR
                     )
                     await self._flush()
+                if event.stream_id not in self.streams:
+                    # Already gone (reset by the client), which is
+                    # when the connection was updated.
+                    return
                 await self._close_stream(event.stream_id)
                 await self._update_idle()
             elif isinstance(event, Request):
@@ -357,11 +361,16 @@ class H2Protocol:
                     # nothing to do already closed.
                     pass
             elif isinstance(event, h2.events.StreamReset):
+                known = event.stream_id in self.streams
                 await self._close_stream(event.stream_id)
                 if event.stream_id in self.stream_buffers:
                     # Nothing more can be sent, release anything waiting to
                     await self.stream_buffers[event.stream_id].close()
                 await self._window_updated(event.stream_id)
+                if known:
+                    # The request is over, whatever the application
+                    # still does, which may leave the connection idle.
+                    await self._update_idle()
             elif isinstance(event, h2.events.WindowUpdated):
                 await self._window_updated(event.stream_id)
             elif isinstance(event, h2.events.PriorityUpdated):
